@@ -96,10 +96,10 @@ def roundtrip(chk, program, encfn, lengths, seqs):
     n = 0
     for L in lengths:
         for seq in seqs:
-            selfo = A.AObj(sequence_counter=A.AInt(seq))
-            selfo.attrs.update(A.class_constants(None, program.cls('encoder', 'NMEA2000Encoder')))
+            selfo = W_.fresh_encoder(program, seq)
             payload = A.ABytes([A.sym_byte('payload', i) for i in range(L)])
             try:
+                _check_counter(selfo)
                 frames = _enc_interp(program).call_function(encfn, [selfo, A.AInt(None), A.AInt(None), A.AInt(None), A.AInt(None), payload])
             except A.RaiseSignal:
                 continue          # reported by FP-LEN
@@ -144,6 +144,20 @@ def roundtrip(chk, program, encfn, lengths, seqs):
                       expected='nothing before the last frame, then exactly one delivery of payload[0..L-1]; record deleted', found=found)
     return n
 
+from .. import wire as W_
+
+class _Enc:
+    """the encoder stand-in of the sweeps; interpreting with it raises Unknown when the constructor keeps the sequence counter somewhere the sweep
+    cannot set (a property, a helper object): no verdict then"""
+    @staticmethod
+    def fresh(program, seq):
+        o = W_.fresh_encoder(program, seq)
+        return o
+
+def _check_counter(selfo):
+    if selfo.attrs.get('__counter_elsewhere__'):
+        raise A.Unknown('the constructor leaves no plain attribute sequence_counter: where the counter lives was not followed')
+
 def _enc_interp(program):
     """an interpreter that sees the encoder's other methods (helpers of the segmenter) and the module's names (hoisted constants, helper functions)"""
     from ..wire import is_logger
@@ -168,11 +182,11 @@ def segmenter_sweep(chk, program, lengths, seqs):
     bad_seen = set()
     for L in lengths:
         for seq in seqs:
-            selfo = A.AObj(sequence_counter=A.AInt(seq))
-            selfo.attrs.update(consts_)
+            selfo = W_.fresh_encoder(program, seq)
             payload = A.ABytes([A.sym_byte('payload', i) for i in range(L)])
             it = _enc_interp(program)
             try:
+                _check_counter(selfo)
                 frames = it.call_function(fn, [selfo, A.AInt(None), A.AInt(None), A.AInt(None), A.AInt(None), payload])
             except A.RaiseSignal as r:
                 chk.violation('FP-LEN', f"_encode_fast_message@L={L},seq={seq}", file=ENC, line=r.node.lineno, func='_encode_fast_message',
@@ -246,11 +260,11 @@ def decoder_side(chk, program, encfn):
     first = ('sub', data, C(-1))
     second = ('sub', data, C(-2))
     # provenance of the encoder's byte 0: interpret once with a symbolic 3-bit counter
-    selfo = A.AObj(sequence_counter=A.AInt(None, [('seq', 0), ('seq', 1), ('seq', 2)]))
-    selfo.attrs.update(A.class_constants(None, program.cls('encoder', 'NMEA2000Encoder')))
+    selfo = W_.fresh_encoder(program, A.AInt(None, [('seq', 0), ('seq', 1), ('seq', 2)]))
     frames = None
     for plen in (223, 216, 100):
         try:
+            _check_counter(selfo)
             frames = _enc_interp(program).call_function(encfn, [selfo, A.AInt(None), A.AInt(None), A.AInt(None), A.AInt(None), A.ABytes([A.sym_byte('payload', i) for i in range(plen)])])
             break
         except A.RaiseSignal:
